@@ -386,3 +386,57 @@ package gen
 //@     set cb = total + skip - shift
 //@     set cl = len(buf) - skip
 //@     set total = total + len(buf)
+
+// ---------------------------------------------------------------------------
+// Generic and simple forms convert losslessly and copy deeply (C18), leaves and array spine: every scalar node converts
+// to the Go scalar with the same value (Alter and Simplify) and duplicates to itself; Array.Simplify and Array.Dup
+// return a new array (never the receiver's storage) of the same length, nil for nil, and do not write the receiver.
+
+//@ unit genconv
+
+//@ func (Int).Alter
+//@   ensures [C18 leaf] isint64(result) && anyint(result) == n
+//@ func (Int).Simplify
+//@   ensures [C18 leaf] isint64(result) && anyint(result) == n
+//@ func (Int).Dup
+//@   ensures [C18 leaf] typeis(result, Int) && anyint(result) == n
+//@ func (Bool).Alter
+//@   ensures [C18 leaf] isbool(result) && anybool(result) == n
+//@ func (Bool).Simplify
+//@   ensures [C18 leaf] isbool(result) && anybool(result) == n
+//@ func (Bool).Dup
+//@   ensures [C18 leaf] typeis(result, Bool) && anybool(result) == n
+//@ func (Float).Alter
+//@   ensures [C18 leaf] isfloat64(result) && anyfloat(result) == n
+//@ func (Float).Simplify
+//@   ensures [C18 leaf] isfloat64(result) && anyfloat(result) == n
+//@ func (Float).Dup
+//@   ensures [C18 leaf] typeis(result, Float) && anyfloat(result) == n
+//@ func (String).Alter
+//@   ensures [C18 leaf] isstring(result) && anystr(result) == n
+//@ func (String).Simplify
+//@   ensures [C18 leaf] isstring(result) && anystr(result) == n
+//@ func (String).Dup
+//@   ensures [C18 leaf] typeis(result, String) && anystr(result) == n
+//@ func (Big).Alter
+//@   ensures [C18 leaf] isstring(result) && anystr(result) == n
+//@ func (Big).Simplify
+//@   ensures [C18 leaf] isstring(result) && anystr(result) == n
+
+//@ func (Array).Simplify
+//@   opt forkappend = true
+//@   ensures [C18 spine] isnil(n) ==> len(anyslice(result, dup)) == 0
+//@   ensures [C18 spine] !isnil(n) ==> len(anyslice(result, dup)) == len(n) && fresh(anyslice(result, dup)) && arrid(anyslice(result, dup)) != arrid(n)
+//@   ensures [C18 frame] unchanged(n)
+//@   loop 0
+//@     invariant [C18 spine] len(dup) == $k + 1 && fresh(dup) && arrid(dup) != arrid(n) && $n == len(n)
+//@     invariant [C18 frame] unchanged(n)
+
+//@ func (Array).Dup
+//@   opt forkappend = true
+//@   ensures [C18 spine] isnil(n) ==> len(anyslice(result, a)) == 0
+//@   ensures [C18 spine] !isnil(n) ==> len(anyslice(result, a)) == len(n) && fresh(anyslice(result, a)) && arrid(anyslice(result, a)) != arrid(n)
+//@   ensures [C18 frame] unchanged(n)
+//@   loop 0
+//@     invariant [C18 spine] len(a) == $k + 1 && fresh(a) && arrid(a) != arrid(n) && $n == len(n)
+//@     invariant [C18 frame] unchanged(n)
